@@ -8,8 +8,14 @@ def main():
     pid = sys.argv[1].upper()
     full = "--full" in sys.argv
     vs = json.load(open(os.path.join(ROOT, "replays", pid, "_all.json")))
-    vs.sort(key=lambda v: v["class"])
+    vs.sort(key=lambda v: (v["class"], len(json.dumps(v["world"])) + len(json.dumps(v["history"]))))
+    seen = {}
     for v in vs:
+        if v["class"] in seen:
+            seen[v["class"]]["count"] += v["count"]
+        else:
+            seen[v["class"]] = v
+    for v in seen.values():
         print("==", v["class"], f"(x{v['count']})")
         print("  ", (v["py"] or "").replace("\n", " "))
         rows = {n: t["rows"] for n, t in v["world"]["tables"].items()}
